@@ -15,7 +15,9 @@ LEVEL = 'exploration'
 RULE = (
     "A case is one storage layout plus a list of index expressions. (small) exhaustive: for every "
     "n<=6 (quick) / <=7 (thorough), every composition of n into flat files (header offsets and "
-    "sample dtypes cycling over {0,1,7,16} x {int16,int32,uint8,float32,float64}) plus single-part "
+    "sample dtypes cycling over {0,1,7,16} x {int16,int32,uint8,float32,float64}, file names in "
+    "ascending, descending or run_8/run_9/run_10 lexicographic order) "
+    " plus single-part "
     "array/npy/cbin layouts, EVERY integer in [-n,n), EVERY non-empty unit-step slice with bounds "
     "in [-n,n] or None, EVERY non-empty strictly increasing index set (as list/int64/int32/uint32 "
     "array; not on cbin) x EVERY column selector of {none, slice, reversed slice, index list, "
@@ -39,7 +41,8 @@ def _small_cases(N):
             yield {'mode': 'all', 'lay': {
                 'n': n, 'nch': 3, 'dtype': S.SAMPLE_DTYPES[k % 5], 'backend': 'flat',
                 'parts': parts, 'offset': OFFSETS[(k // 5) % 4], 'chunk': 1 + k % (n + 2),
-                'salt': k % 7, 'ext': ['.dat', '.bin', '.raw'][k % 3]}}
+                'salt': k % 7, 'ext': ['.dat', '.bin', '.raw'][k % 3],
+                'names': ['asc', 'desc', 'num'][(k // 3) % 3]}}
         for backend in ('array', 'npy', 'cbin'):
             k += 1
             lay = {'n': n, 'nch': 3, 'dtype': ['int16', 'int32', 'float32'][k % 3],
